@@ -13,54 +13,6 @@ namespace AbtemVerif.Props.C07
 open AbtemVerif.Multislice AbtemVerif.ExitPlanes AbtemVerif.Gen.ExitPlanes
 variable {W S M : Type}
 
-theorem nodup_keys (p : Pot S) (c n : Nat) (hn : p.planes.length = n) :
-    ((List.range' 0 n).map (measurementIndex p c)).Nodup := by
-  by_cases h1 : n = 1
-  · subst h1; simp
-  · have hs : iSinglePlane (p.planes.length : Int) = false := by
-      simp only [iSinglePlane, decide_eq_false_iff_not]; omega
-    apply List.Nodup.map _ List.nodup_range'
-    intro a b hab
-    simp only [measurementIndex, hs, Bool.false_eq_true, if_false] at hab
-    simpa using List.append_cancel_left hab
-
-/-- a potential with one configuration and exit planes in the documented form -/
-def pot1 (ensAxis ent : Bool) (ps : List Nat) (slices : List S) : Pot S :=
-  ⟨ensAxis, natPlanes ent ps, slices.length, [slices]⟩
-
-theorem total_extraShape (p : Pot S) :
-    (extraShape p).foldl (· + ·) 0
-      = (if p.ensAxis then p.configs.length else 0) + (if sPlaneAxis (p.planes.length : Int) then p.planes.length else 0) := by
-  unfold extraShape
-  cases p.ensAxis <;> cases sPlaneAxis (p.planes.length : Int) <;> simp
-
-
-theorem mNoTable_iff (t : Nat) (l : Int) (n : Nat) :
-    mNoTable (t : Int) l (n : Int) = true ↔ t = 1 ∧ l = (n : Int) - 1 := by
-  simp [mNoTable]
-
-theorem msd_eq (step : W → S → W) (detect : W → M) (w0 : W) (p : Pot S) (first : Int) (tl : List Int)
-    (h : p.planes = first :: tl) :
-    multisliceAndDetect step detect w0 p =
-      if mNoTable (((extraShape p).foldl (· + ·) 0 : Nat) : Int) ((first :: tl).getLastD 0) (p.nslices : Int) then
-        .ok (.final (if p.ensAxis then [1] else []) (detect (configLoop step detect p first w0 0 p.configs).1))
-      else .ok (.table (extraShape p) (configLoop step detect p first w0 0 p.configs).2) := by
-  simp only [multisliceAndDetect, h]
-
-theorem getLastD_natPlanes_single (ent : Bool) (ps : List Nat) (h : startIndex ent + ps.length = 1) :
-    (ent = true ∧ ps = [] ∧ (natPlanes ent ps).getLastD 0 = -1) ∨
-    (ent = false ∧ ∃ q, ps = [q] ∧ (natPlanes ent ps).getLastD 0 = (q : Int)) := by
-  cases ent
-  · right
-    simp only [startIndex, Bool.false_eq_true, if_false, Nat.zero_add] at h
-    match ps, h with
-    | [q], _ => exact ⟨rfl, q, rfl, rfl⟩
-  · left
-    simp only [startIndex, if_true] at h
-    have : ps = [] := List.eq_nil_of_length_eq_zero (by omega)
-    subst this
-    exact ⟨rfl, rfl, rfl⟩
-
 /-- **C07 main theorem.**  For every step and detect kernel, every incident wave, every slice sequence and every exit-plane
 tuple of the documented form (optional entrance plane, then strictly increasing slice indices inside the potential), with
 or without an ensemble axis: the entry recorded for an exit plane after slice `q` is `detect` of the wave propagated through
@@ -84,7 +36,7 @@ theorem exit_plane_result (step : W → S → W) (detect : W → M) (w0 : W) (p 
     · subst h; simp [startIndex]
     · have := List.length_pos_of_ne_nil h; omega
   have hrun := runConfig_spec step detect p ent ps first tl 0 w0 slices hp hf hs hb
-  have hcfg : configLoop step detect p first w0 0 p.configs
+  have hcfg : configLoop step detect p first w0 w0 0 p.configs
       = (slices.foldl step w0, configWrites step detect (measurementIndex p 0) ent ps w0 slices) := by
     rw [hc]; simp [configLoop, hrun]
   rw [msd_eq step detect w0 p first tl (hp.trans hf), hcfg]
